@@ -314,6 +314,7 @@ func ruleC12Keys(e *Env) {
 		sums := map[string]pred.Summary{}
 		if ns != nil {
 			sums[ns.String()] = func(ev *pred.Evaluator, args []pred.Val) (pred.Val, error) {
+				args = e.Unpermuted("size", "newSize", ns, args)
 				return pred.Tuple{pred.Term{Fn: "newSize#0", Args: args}, pred.Term{Fn: "newSize#1", Args: args}}, nil
 			}
 		}
